@@ -80,15 +80,16 @@ def run(ctx):
                     runs.append(dict(base, sweeps=1, form="estimator"))
                 if j % 7 == 2 and c["k"] >= 2:     # more clusters requested than there are frames
                     runs.append(dict(base, sweeps=1, form=("function", "estimator")[j % 2], k=len(c["pts"]) + 1))
-    if ctx.tier == "thorough":
-        rng = np.random.RandomState(ctx.seed + 1)
-        runs += ce.random_runs(rng, 15000, ["kcenters", "kmedoids", "hybrid"])
+    rng = np.random.RandomState(ctx.seed + 1)
+    extra = ce.random_runs(rng, 15000 if ctx.tier == "thorough" else 500, ["kcenters", "kmedoids", "hybrid"],
+                           max_n=40 if ctx.tier == "thorough" else 14)
     ctx.exhaustive = False
     if ctx.tier == "quick" and len(runs) > 12000:      # deterministic, seed-rotated subsample
         stride = -(-len(runs) // 12000)
         ctx.notes["runs_enumerated"] = len(runs)
         runs = runs[ctx.seed % stride::stride]
         ctx.exhaustive = False
+    runs += extra         # seeded random data sets beyond the enumerated scope (larger, 1-3 dimensions, scaled)
     traces = core.pmap(cc.record, runs, chunk=100)
     for tr in traces:
         res_ev = [e for e in tr["events"] if e["ev"] == "result"]
